@@ -678,12 +678,31 @@ theorem totalVP_of_wf {s : VSet} (hwf : WF s) : totalVP s = s.total := by
     rw [this, ← hwf.total_eq, h0]
   · rfl
 
-/-- An accepted, non-empty change set: the result is well-formed and non-empty. -/
-theorem updateWith_ok_wf {ad : Bool} {s : VSet} {ch : List Val} {s' : VSet} (hwf : WF s)
-    (h : updateWith ad s ch = .ok s') (hne : ch ≠ []) : WF s' ∧ s'.vals ≠ [] := by
-  obtain ⟨ups, dels, newTotal, nn, hp, _, hvr, hvu, hnn, hfin⟩ := updateWith_ok_decomp h hne
+/-- what is known about the list after `applyUpdates`/`applyRemovals` once all checks passed -/
+structure MergedFacts (s : VSet) (m : List Val) : Prop where
+  sorted : SortedAddr m
+  pos : ∀ v ∈ m, 1 ≤ v.power
+  sum_le : sumPower m ≤ maxTotal
+  ne : m ≠ []
+  origin : ∀ v ∈ m, (∃ w ∈ s.vals, v.prio = w.prio) ∨
+    (∃ nt : Int, 0 ≤ nt ∧ nt ≤ maxTotal ∧ v.prio = -(nt + nt / 8))
+
+theorem computeNewPriorities_origin {vals : List Val} {T : Int} {ups : List Val} :
+    ∀ u ∈ computeNewPriorities vals T ups, (∃ w ∈ vals, u.prio = w.prio) ∨ u.prio = -(T + T / 8) := by
+  intro u hu
+  unfold computeNewPriorities at hu
+  simp only [List.mem_map] at hu
+  obtain ⟨x, _, rfl⟩ := hu
+  cases hl : lookup x.addr vals with
+  | none => right; rfl
+  | some v => left; exact ⟨v, (lookup_some hl).1, rfl⟩
+
+theorem merged_facts {s : VSet} {ch ups dels : List Val} {newTotal : Int} {nn : Nat} (hwf : WF s)
+    (hp : processChanges ch = .ok (ups, dels)) (hvr : verifyRemovals s.vals dels = true)
+    (hvu : verifyUpdates s.vals ups s.total 0 = .ok (newTotal, nn))
+    (hnn : ¬ (nn = 0 ∧ s.vals.length = dels.length)) :
+    MergedFacts s (mergedOf s ups dels newTotal) := by
   have P := processChanges_ok hp
-  rw [totalVP_of_wf hwf] at hvu
   obtain ⟨v1, v2, v3⟩ := verifyUpdates_ok hvu hwf.total_le
   -- the updates with their priorities
   have hshape := shape_computeNewPriorities s.vals newTotal ups
@@ -717,33 +736,172 @@ theorem updateWith_ok_wf {ad : Bool} {s : VSet} {ch : List Val} {s' : VSet} (hwf
     obtain ⟨x, hx, hxa⟩ := cv1 v hv
     exact ⟨x, hx, by omega⟩)
   have hlen2 := applyRemovals_length s.vals dels hwf.sorted P.dels_sorted hdel_in
-  have hmsorted : SortedAddr (mergedOf s ups dels newTotal) := List.Pairwise.sublist hsub m2
-  have hmpos : ∀ v ∈ mergedOf s ups dels newTotal, 1 ≤ v.power :=
-    fun v hv => hm0pos v (hsub.subset hv)
-  have hmsum : sumPower (mergedOf s ups dels newTotal) ≤ maxTotal := by
-    have := sumPower_sublist_le hsub (fun v hv => by have := hm0pos v hv; omega)
+  have hnt0 : 0 ≤ newTotal := by
+    have := sumPower_sublist_le (List.nil_sublist _) (fun v hv => by have := hm0pos v hv; omega)
+    rw [m3, ← hwf.total_eq, ← v1] at this
+    simpa [sumPower] using this
+  refine ⟨List.Pairwise.sublist hsub m2, fun v hv => hm0pos v (hsub.subset hv), ?_, ?_, ?_⟩
+  · have := sumPower_sublist_le hsub (fun v hv => by have := hm0pos v hv; omega)
     rw [m3] at this
     rw [← hwf.total_eq, ← v1] at this
     exact Int.le_trans this v3
-  have hmlen : 0 < (mergedOf s ups dels newTotal).length := by
-    unfold mergedOf
+  · intro hc
+    have : (mergedOf s ups dels newTotal).length = 0 := by rw [hc]; rfl
+    unfold mergedOf at this
     rw [m4] at hlen1
-    by_contra hc
     apply hnn
     omega
+  · intro v hv
+    rcases m1 v (hsub.subset hv) with h | h
+    · left; exact ⟨v, h, rfl⟩
+    · rcases computeNewPriorities_origin v h with h | h
+      · left; exact h
+      · right; exact ⟨newTotal, hnt0, v3, h⟩
+
+theorem wf_of_finish {s : VSet} {m : List Val} {s' : VSet} (F : MergedFacts s m)
+    (hfin : finishUpdate s m = .ok s') : WF s' ∧ s'.vals ≠ [] := by
   obtain ⟨_, _, hs'⟩ := finishUpdate_ok hfin
-  obtain ⟨t1, _⟩ := sumPowerClip_eq (fun v hv => by have := hmpos v hv; omega) hmsum
-  have hsh : shape s'.vals = shape (mergedOf s ups dels newTotal) := by
+  obtain ⟨t1, _⟩ := sumPowerClip_eq (fun v hv => by have := F.pos v hv; omega) F.sum_le
+  have hsh : shape s'.vals = shape m := by
     rw [hs']; simp only [shape_shiftByAvg, shape_rescale]
   refine ⟨⟨?_, ?_, ?_, ?_⟩, ?_⟩
-  · rw [sortedAddr_iff_shape, hsh, ← sortedAddr_iff_shape]; exact hmsorted
-  · rw [pos_iff_shape, hsh, ← pos_iff_shape]; exact hmpos
+  · rw [sortedAddr_iff_shape, hsh, ← sortedAddr_iff_shape]; exact F.sorted
+  · rw [pos_iff_shape, hsh, ← pos_iff_shape]; exact F.pos
   · rw [sumPower_shape, hsh, ← sumPower_shape, hs']; exact t1
-  · rw [hs']; simp only; rw [t1]; exact hmsum
+  · rw [hs']; simp only; rw [t1]; exact F.sum_le
   · intro hc
     have := shape_length hsh
     rw [hc] at this
-    simp only [List.length_nil] at this
-    omega
+    exact F.ne (List.length_eq_zero_iff.1 this.symm)
+
+/-- An accepted, non-empty change set: the result is well-formed and non-empty. -/
+theorem updateWith_ok_wf {ad : Bool} {s : VSet} {ch : List Val} {s' : VSet} (hwf : WF s)
+    (h : updateWith ad s ch = .ok s') (hne : ch ≠ []) : WF s' ∧ s'.vals ≠ [] := by
+  obtain ⟨ups, dels, newTotal, nn, hp, _, hvr, hvu, hnn, hfin⟩ := updateWith_ok_decomp h hne
+  rw [totalVP_of_wf hwf] at hvu
+  exact wf_of_finish (merged_facts hwf hp hvr hvu hnn) hfin
+
+/-! ### rejected inputs -/
+
+/-- what the statement calls a bad change set -/
+def BadChanges (s : VSet) (ch : List Val) : Prop :=
+  ¬ (ch.map (·.addr)).Nodup ∨ (∃ u ∈ ch, u.power < 0) ∨ (∃ u ∈ ch, u.power > maxTotal) ∨
+  (∃ u ∈ ch, u.power = 0 ∧ ∀ v ∈ s.vals, v.addr ≠ u.addr)
+
+theorem updateWith_rejects {ad : Bool} {s : VSet} {ch : List Val} (hbad : BadChanges s ch) :
+    ∃ e, updateWith ad s ch = .error e := by
+  cases h : updateWith ad s ch with
+  | error e => exact ⟨e, rfl⟩
+  | ok s' =>
+    exfalso
+    have hne : ch ≠ [] := by
+      intro hc; subst hc
+      rcases hbad with h1 | ⟨u, hu, _⟩ | ⟨u, hu, _⟩ | ⟨u, hu, _⟩
+      · exact h1 (by simp)
+      all_goals simp at hu
+    obtain ⟨ups, dels, newTotal, nn, hp, _, hvr, _, _, _⟩ := updateWith_ok_decomp h hne
+    have P := processChanges_ok hp
+    rcases hbad with h1 | ⟨u, hu, h2⟩ | ⟨u, hu, h3⟩ | ⟨u, hu, h0, h4⟩
+    · exact h1 P.nodup
+    · have := P.range u hu; omega
+    · have := P.range u hu; omega
+    · have hd := P.mem_dels hu h0
+      unfold verifyRemovals at hvr
+      rw [List.all_eq_true] at hvr
+      have := hvr u hd
+      cases hl : lookup u.addr s.vals with
+      | none => simp [hl] at this
+      | some v => exact h4 v (lookup_some hl).1 (lookup_some hl).2
+
+/-! ### `NewValidatorSet`: the all-zero start followed by one call -/
+
+theorem sumPrio_const {vs : List Val} {c : Int} (h : ∀ v ∈ vs, v.prio = c) :
+    sumPrio vs = vs.length * c := by
+  induction vs with
+  | nil => simp [sumPrio]
+  | cons x xs ih =>
+    simp only [sumPrio, h x (by simp), ih (fun v hv => h v (by simp [hv])), List.length_cons]
+    push_cast; ring
+
+/-- all priorities equal: rescaling does nothing and centring makes them all zero -/
+theorem rescale_shift_const {vs : List Val} {c D : Int} (hne : vs ≠ []) (h : ∀ v ∈ vs, v.prio = c)
+    (hc : -4611686018427387903 ≤ c ∧ c ≤ 4611686018427387903) :
+    ∀ v ∈ shiftByAvg (rescale D vs), v.prio = 0 := by
+  have hres : rescale D vs = vs := by
+    unfold rescale
+    by_cases hD : D ≤ 0
+    · rw [if_pos hD]
+    · rw [if_neg hD]
+      obtain ⟨u, hu, w, hw, hd, _, _⟩ := prioDiff_spec (B := 4611686018427387903) hne (by omega)
+        (fun v hv => by rw [h v hv]; exact hc)
+      rw [hd, h u hu, h w hw, if_neg (by omega)]
+  rw [hres]
+  intro v hv
+  unfold shiftByAvg at hv
+  simp only [List.mem_map] at hv
+  obtain ⟨x, hx, rfl⟩ := hv
+  have hl : (0 : Int) < vs.length := by
+    have := List.length_pos_iff.2 hne; omega
+  have havg : avgPrio vs = c := by
+    unfold avgPrio
+    rw [sumPrio_const h]
+    exact Int.mul_ediv_cancel_left c (by omega)
+  simp only [setPrio_prio, havg, h x hx, Int.sub_self]
+  exact clip_id (by unfold minInt64; omega) (by unfold maxInt64; omega)
+
+theorem newSet_form {valz : List Val} {s0 : VSet} (h : newSet valz = .ok s0) (hne : valz ≠ []) :
+    ∃ z, ZeroStart z ∧ opInc 1 z = .ok s0 := by
+  unfold newSet at h
+  cases hu : updateWith false VSet.empty valz with
+  | error e => simp [hu] at h
+  | ok z =>
+    simp only [hu] at h
+    have hemp : valz.isEmpty = false := by
+      cases valz with
+      | nil => exact absurd rfl hne
+      | cons _ _ => rfl
+    rw [hemp] at h
+    simp only [Bool.false_eq_true, if_false] at h
+    have hwf0 : WF VSet.empty := ⟨by simp [VSet.empty, SortedAddr], by simp [VSet.empty],
+      by simp [VSet.empty, sumPower], by simp [VSet.empty, maxTotal]⟩
+    obtain ⟨hwf, hzne⟩ := updateWith_ok_wf hwf0 hu hne
+    refine ⟨z, ⟨hzne, hwf.sorted, hwf.pos, hwf.total_eq, hwf.total_le, ?_⟩, h⟩
+    -- all priorities are zero
+    obtain ⟨ups, dels, newTotal, nn, hp, hdel, _, hvu, _, hfin⟩ := updateWith_ok_decomp hu hne
+    have hd := hdel rfl
+    subst hd
+    rw [totalVP_of_wf hwf0] at hvu
+    obtain ⟨v1, _, v3⟩ := verifyUpdates_ok hvu (by simp [VSet.empty, maxTotal])
+    have P := processChanges_ok hp
+    have hnt0 : 0 ≤ newTotal := by
+      rw [v1]
+      show 0 ≤ (0 : Int) + delta [] ups
+      rw [delta_nil]
+      have := sumPower_sublist_le (List.nil_sublist ups) (fun v hv => by have := (P.ups_pos v hv).1; omega)
+      simp only [sumPower] at this ⊢; omega
+    have hmerged : mergedOf VSet.empty ups [] newTotal = computeNewPriorities [] newTotal ups := by
+      unfold mergedOf applyUpdates
+      simp only [VSet.empty, List.length_nil, Nat.zero_add]
+      have : ∀ (l : List Val), applyRemovals l [] = l := by
+        intro l; cases l <;> rfl
+      rw [this]
+      cases hc : computeNewPriorities [] newTotal ups with
+      | nil => rfl
+      | cons a as => rfl
+    obtain ⟨_, _, hz⟩ := finishUpdate_ok hfin
+    rw [hmerged] at hz
+    have hconst : ∀ v ∈ computeNewPriorities [] newTotal ups, v.prio = -(newTotal + newTotal / 8) := by
+      intro v hv
+      unfold computeNewPriorities at hv
+      simp only [List.mem_map, lookup] at hv
+      obtain ⟨u, _, rfl⟩ := hv
+      rfl
+    have hne' : computeNewPriorities [] newTotal ups ≠ [] := by
+      intro hc
+      rw [hz, hc] at hzne
+      exact hzne rfl
+    have := rescale_shift_const (D := windowFactor * sumPowerClip (computeNewPriorities [] newTotal ups))
+      hne' hconst (by unfold maxTotal at v3; omega)
+    rw [hz]; exact this
 
 end GnoVerif.C37
